@@ -1,6 +1,6 @@
 """Adapter for spec/LexContract.tla <-> cssutils.tokenize2.Tokenizer (C05)."""
 import signal, sys, re
-sys.path.insert(0, "/repo")
+sys.path.insert(0, __import__("os").environ.get("VERIF_REPO", "/repo"))
 import cssutils  # noqa: E402
 from cssutils.tokenize2 import Tokenizer  # noqa: E402
 import logging, xml.dom
